@@ -41,6 +41,19 @@ pub trait IteratorImpl {
 }
 '''
 
+SECTION_ITER_GHOST = '''
+impl<'index, R: Reader<Offset = usize>> UnitIndexSectionIterator<'index, R> {
+    /// the section kinds of the columns not yet yielded
+    #[verifier::prophetic]
+    pub closed spec fn kinds(&self) -> Seq<IndexSectionId> { self.sections.remaining().map_values(|k: &IndexSectionId| *k) }
+    pub closed spec fn v_offsets(&self) -> RView { self.offsets.rv() }
+    pub closed spec fn v_sizes(&self) -> RView { self.sizes.rv() }
+    /// one offset and one size is left for every remaining column
+    #[verifier::prophetic]
+    pub open spec fn wf(&self) -> bool { self.v_offsets().len >= 4 * self.kinds().len() && self.v_sizes().len >= 4 * self.kinds().len() }
+}
+'''
+
 KIND_SPEC = '''
 /// the i-th entry of the row of section identifiers that heads the table of section offsets
 pub open spec fn index_column_id(b: RView, i: int) -> nat {
@@ -132,6 +145,15 @@ use vstd::std_specs::iter::IteratorSpec;''')
         attrs='#[verifier::loop_isolation(false)]')
     # ---- find
     N = 'self.v_slot_count() as int'
+    # ---- sections(row): row/column indexing of the two contribution tables (rows are 1-based; row r starts at (r-1)*N*4)
+    RO = '((row - 1) * self.v_section_count() * 4) as nat'
+    imp.splice('sections', ret='res', requires=['[C17:index-wf] self.wf()'], ensures=[
+        '[C17:sections-row-range] res is Err <==> (row == 0 || row > self.v_unit_count())',
+        f'[C17:sections-row-offset][C10:view] res matches Ok(it) ==> adv(self.v_offsets(), it.v_offsets(), {RO}) && adv(self.v_sizes(), it.v_sizes(), {RO})',
+        '[C17:sections-columns] res matches Ok(it) ==> it.kinds() == self.v_kinds() && it.wf()',
+    ], canary=True,
+        before=[('let row_offset =', 'proof { let r1 = (row - 1) as int; let n = self.section_count as int; let u = self.unit_count as int; '
+                 'assert(0 <= r1 * n <= 0xffff_ffff * 8 && r1 * n + n <= u * n) by (nonlinear_arith) requires 0 <= r1 < u <= 0xffff_ffff, 0 <= n <= 8; }')])
     # the loop counter of `for _ in 0..n` is only nameable through Verus' ghost iterator handle (pure ghost syntax)
     imp.insert_after('for _ in ', 'vit: ')
     imp.splice('find', ret='res', requires=['[C17:index-wf] self.wf()'], ensures=[
@@ -140,23 +162,34 @@ use vstd::std_specs::iter::IteratorSpec;''')
         f'[C17:find-sound] res matches Some(r) ==> exists|s: int| 0 <= s < {N} && self.id_at(s) == id && self.row_at(s) == r',
         '[C17:find-absent] !present(self.ids(), id as nat) ==> res is None',
         f'[C17:find-is-scan] open_addressed(self.ids()) && id != 0 ==> forall|s: int| 0 <= s < {N} && self.id_at(s) == id ==> res == Some(self.row_at(s) as u32)',
-    ], canary=True,
+    ], canary=True, attrs='#[verifier::loop_isolation(false)]',
         loops={0: 'invariant self.wf(), self.slot_count != 0, mask == self.slot_count - 1, is_pow2_u32(self.slot_count), '
                   'self.slot_count == self.v_slot_count(), 0 <= vit.index@ <= self.slot_count, '
                   'hash1 as int == probe(id, self.slot_count as int, vit.index@ as int), hash1 <= mask, '
                   'hash2 as int == probe_stride(id, self.slot_count as int), hash2 <= mask + 1, '
                   'search(self.ids(), self.rows(), id, 0) == search(self.ids(), self.rows(), id, vit.index@ as int),'},
-        before=[('if self.slot_count == 0 {', 'proof { lemma_search_sound(self.ids(), self.rows(), id, 0); if open_addressed(self.ids()) && id != 0 { lemma_search_is_scan(self.ids(), self.rows(), id); } }'),
+        before=[('if self.slot_count == 0 {', 'proof { lemma_search_sound(self.ids(), self.rows(), id, 0); '
+                 'assert forall|s: int| open_addressed(self.ids()) && id != 0 && 0 <= s < self.v_slot_count() as int && #[trigger] self.id_at(s) == id '
+                 'implies search(self.ids(), self.rows(), id, 0) == Some(self.row_at(s)) by { lemma_search_complete(self.ids(), self.rows(), s); } }'),
                 ('let mut hash1 = id & mask;', 'proof { lemma_mask_is_mod(id, self.slot_count); lemma_mask_is_mod(id >> 32, self.slot_count); lemma_stride(id, self.slot_count); }'),
                 ('hash1 = (hash1 + hash2) & mask;', 'proof { lemma_mask_is_mod((hash1 + hash2) as u64, self.slot_count); }')])
     sk.add('read::index', imp)
     sk.add('read::index', ix.item(r'^pub struct UnitIndexSectionIterator<', label='UnitIndexSectionIterator').clean(rejrec=['R']))
+    sk.add('read::index', SECTION_ITER_GHOST, label='UnitIndexSectionIterator(ghost)')
     nx = ix.item(r"^impl<'index, R: Reader> Iterator for UnitIndexSectionIterator<", label='UnitIndexSectionIterator')
     # R-IMPL (as in eslice.py): vstd attaches its prophetic-iterator laws to every `impl Iterator`; the impl block is kept
     # verbatim but implements a generated contract-less trait with the same signature
     nx.custom('R-IMPL', "Iterator for UnitIndexSectionIterator<'index, R>", "IteratorImpl for UnitIndexSectionIterator<'index, R>")
     nx.clean()
     nx.own(OWN)
+    OS, FS = 'old(self)', 'final(self)'
+    nx.splice('next', ret='res', ensures=[
+        f'[C17:section-iter-next] res matches Some(sec) ==> {OS}.kinds().len() > 0 && sec.section == {OS}.kinds()[0] '
+        f'&& sec.offset == {OS}.v_offsets().u(0, 4) && sec.size == {OS}.v_sizes().u(0, 4)',
+        f'[C17:section-iter-advance] res is Some ==> {FS}.kinds() == {OS}.kinds().skip(1) && adv({OS}.v_offsets(), {FS}.v_offsets(), 4) && adv({OS}.v_sizes(), {FS}.v_sizes(), 4)',
+        f'[C17:section-iter-complete] {OS}.wf() && {OS}.kinds().len() > 0 ==> res is Some && {FS}.wf()',
+        f'[C01:iter-finish] {OS}.kinds().len() == 0 ==> res is None',
+    ])
     sk.add('read::index', nx)
 
 
